@@ -9,6 +9,7 @@ constraint of tflite_supported_operators.py / tflite_model_semantic.py) it is ai
 expected to be left to the CPU."""
 from .netgen import Net
 
+PENDING = set()   # "family:style" names left out of random style selection (filled from corpus.PENDING_TRIAGE)
 KINDS = {}        # kind -> builder
 ORDER = []        # registration order = numbering (append only)
 EXPECT_CPU = set()   # kinds whose operator under test is expected to fall back to the CPU
@@ -25,6 +26,11 @@ def kind(name, cpu=False):
             EXPECT_CPU.add(name)
         return f
     return deco
+
+
+def pick_style(rng, fam, styles, style=None):
+    """random style of a family, leaving out the styles that are pending triage (an explicit style is always honoured)"""
+    return style or rng.choice([s for s in styles if "%s:%s" % (fam, s) not in PENDING])
 
 
 def inp(n, shape, dt="INT8", name="in", scale=None, zp=None):
@@ -1015,6 +1021,11 @@ _padk("pad_u8", [[0, 0], [1, 1], [1, 1], [0, 0]], then=None, dt="UINT8")
 _padk("pad_i16_conv", [[0, 0], [1, 1], [1, 1], [0, 0]], dt="INT16")
 
 
+_padk("pad_r3_h", [[1, 2], [0, 0], [0, 0]], then=None, rank=3)                 # first dimension only: convert_pad_to_concat
+_padk("pad_r3_w", [[0, 0], [1, 2], [0, 0]], then=None, rank=3)                 # convert_pad on a rank-3 tensor
+_padk("pad_hw_channel", [[0, 0], [1, 1], [1, 1], [0, 2]], then=None)           # channel and spatial padding together
+
+
 @reg("pad_huge")
 def _pad_huge(n, rng):
     """padding larger than a sub-pad can handle (split_pad_to_sub_pad)"""
@@ -1099,15 +1110,81 @@ def _cpu_custom2(n, rng):
     return [n.eltwise("ADD", o1, o2), n.unary("ABS", o2)]
 
 
+# ----------------------------------------------------------------------------- LUT operators and rewrites specific to this fork
+_unary("log", "LOG", iscale=0.05, izp=-128, oscale=0.05, ozp=10)                 # convert_ops_to_lut: log table
+_unary("log_i16", "LOG", "INT16", iscale=0.001, oscale=0.0005, ozp=0)
+_unary("sqrt", "SQRT", iscale=0.05, izp=-128, oscale=0.02, ozp=-128)
+_unary("sqrt_i16", "SQRT", "INT16", iscale=0.001, oscale=0.0005, ozp=0)
+_unary("log_u8", "LOG", "UINT8", cpu=True)
+
+
+def _gelu(name, dt="INT8", approx=False, cpu=False):
+    @reg(name, cpu)
+    def g(n, rng):
+        H, W, C = hwc(rng)
+        x = inp(n, [1, H, W, C], dt)
+        y = n.like(x, "gelu", scale={"INT16": 0.001}.get(dt, 0.04), zp={"INT8": -100}.get(dt, 0))
+        n.op("GELU", [x], [y], ["GeluOptions", {"Approximate": bool(approx)}])
+        return y
+
+
+_gelu("gelu")
+_gelu("gelu_approx", approx=True)
+_gelu("gelu_i16", "INT16")
+
+
+def _deq_lut_q(name, op):
+    @reg(name)
+    def g(n, rng):
+        """DEQUANTIZE -> float EXP / LOG -> QUANTIZE is merged into one quantised LUT operator (merge_dequant_lut_quant)"""
+        H, W, C = hwc(rng)
+        x = inp(n, [1, H, W, C], scale=0.05, zp=-128 if op == "LOG" else 0)
+        f1 = n.fm("deq", [1, H, W, C], "FLOAT32", None)
+        n.op("DEQUANTIZE", [x], [f1], ["DequantizeOptions", {}])
+        f2 = n.fm("flt", [1, H, W, C], "FLOAT32", None)
+        n.op(op, [f1], [f2], ["ExpOptions", {}] if op == "EXP" else None)
+        y = n.fm("q", [1, H, W, C], "INT8", 0.2 if op == "EXP" else 0.05, -128 if op == "EXP" else 10)
+        n.op("QUANTIZE", [f2], [y])
+        return y
+
+
+_deq_lut_q("deq_exp_q", "EXP")
+_deq_lut_q("deq_log_q", "LOG")
+
+
+def _s2b(name, dw=False, block=2):
+    @reg(name)
+    def g(n, rng):
+        """SPACE_TO_BATCH_ND -> CONV_2D / DEPTHWISE_CONV_2D (VALID) -> BATCH_TO_SPACE_ND = dilated convolution
+        (replace_dilated_convolution)"""
+        H, W, C = rng.choice([8, 12]), rng.choice([8, 12]), rng.choice([8, 16])
+        x = inp(n, [1, H, W, C])
+        b = block
+        bs = n.i32("block", [b, b])
+        pads = n.const("pads", [2, 2], "INT32", data=[b, b, b, b])
+        s = n.like(x, "s2b", [b * b, (H + 2 * b) // b, (W + 2 * b) // b, C])
+        n.op("SPACE_TO_BATCH_ND", [x, bs, pads], [s], ["SpaceToBatchNDOptions", {}])
+        c = n.dwconv(s, 3, pad="VALID") if dw else n.conv(s, 8, 3, pad="VALID")
+        bs2 = n.i32("block2", [b, b])
+        crops = n.const("crops", [2, 2], "INT32", data=[0, 0, 0, 0])
+        y = n.like(c, "b2s", [1, H, W, n.shape(c)[3]])
+        n.op("BATCH_TO_SPACE_ND", [c, bs2, crops], [y], ["BatchToSpaceNDOptions", {}])
+        return y
+
+
+_s2b("s2b_conv_b2s")
+_s2b("s2b_dw_b2s", dw=True)
+
+
 # ============================================================================= multi-operator families
-def f_memonly(rng, seed):
+def f_memonly(rng, seed, style=None):
     """memory-only / shape-changing operators between NPU operators (bypass_memory_only_ops, split/concat offsets)"""
     n = Net(seed)
     H, W, C = rng.choice([4, 8]), rng.choice([4, 8]), rng.choice([8, 16, 24])
     x = n.fm("in", [1, H, W, C], is_input=True)
     a = n.conv(x, C, rng.choice([1, 3]))
-    style = rng.choice(["reshape", "squeeze_expand", "slice", "sslice", "transpose", "unpack_pack", "split_v_concat",
-                        "concat_h", "reshape_chain", "io_memonly", "sslice_shrink", "transpose_mid", "slice_fanout"])
+    style = pick_style(rng, "memonly", ["reshape", "squeeze_expand", "slice", "sslice", "transpose", "unpack_pack", "split_v_concat",
+                                        "concat_h", "reshape_chain", "io_memonly", "sslice_shrink", "transpose_mid", "slice_fanout"], style)
     if style == "reshape":
         b = n.reshape(a, [1, H * W, 1, C])
         outs = [n.conv(b, 8, 1)]
@@ -1159,11 +1236,12 @@ def f_memonly(rng, seed):
     return "memonly:" + style, n.desc(outs)
 
 
-def f_precision(rng, seed):
+def f_precision(rng, seed, style=None):
     """mixed precision chains: QUANTIZE between int8 / int16 / uint8 sections"""
     n = Net(seed)
     H, W, C = rng.choice([4, 8]), rng.choice([4, 8]), rng.choice([8, 16])
-    style = rng.choice(["i8_i16_i8", "i16_i8", "i8_u8", "u8_i8_conv", "i16_pool_mean", "i8_i16_softmax", "requant_chain"])
+    style = pick_style(rng, "precision", ["i8_i16_i8", "i16_i8", "i8_u8", "u8_i8_conv", "i16_pool_mean", "i8_i16_softmax",
+                                          "requant_chain"], style)
     if style == "i8_i16_i8":
         x = n.fm("in", [1, H, W, C], is_input=True)
         a = n.conv(x, C, 3)
@@ -1234,14 +1312,15 @@ def f_fusedact(rng, seed):
     return "fusedact:%s%d-%s" % (prod, fused, post), n.desc(outs)
 
 
-def f_fallback(rng, seed):
+def f_fallback(rng, seed, style=None):
     """operators just outside the documented constraints (and third-party custom operators) between NPU operators"""
     n = Net(seed)
     H, W, C = rng.choice([4, 8]), rng.choice([4, 8]), rng.choice([8, 16])
     x = n.fm("in", [1, H, W, C], is_input=True)
     a = n.conv(x, C, 3)
-    style = rng.choice(["mirror_pad", "custom_mid", "resize_x3", "tr_nchw", "sslice_stride2", "dw_mult_bad", "avgpool_k9",
-                        "mean_c_bad", "hardswish_i16", "custom_par", "softmax_negbeta", "batch_add", "prelu_custom"])
+    style = pick_style(rng, "fallback", ["mirror_pad", "custom_mid", "resize_x3", "tr_nchw", "sslice_stride2", "dw_mult_bad",
+                                         "avgpool_k9", "mean_c_bad", "hardswish_i16", "custom_par", "softmax_negbeta", "batch_add",
+                                         "prelu_custom"], style)
     if style == "mirror_pad":
         b = n.pad2(a, [[0, 0], [1, 1], [1, 1], [0, 0]], kind="MIRROR_PAD")
     elif style == "custom_mid":
@@ -1277,12 +1356,12 @@ def f_fallback(rng, seed):
     return "fallback:" + style, n.desc([c])
 
 
-def f_mulmax(rng, seed):
+def f_mulmax(rng, seed, style=None):
     """MUL + MAXIMUM patterns that are fused into LeakyRelu / Abs (convert_mul_max_to_abs_or_lrelu) and near misses"""
     n = Net(seed)
     H, W, C = rng.choice([4, 8]), rng.choice([4, 8]), rng.choice([8, 16])
     x = n.fm("in", [1, H, W, C], is_input=True)
-    style = rng.choice(["lrelu", "abs", "neg_other", "mul_fanout", "diff_quant", "tensor_alpha"])
+    style = pick_style(rng, "mulmax", ["lrelu", "abs", "neg_other", "mul_fanout", "diff_quant", "tensor_alpha"], style)
     a = n.conv(x, C, 1, oscale=0.05, ozp=0) if rng.random() < 0.5 else x
     val = {"lrelu": 26, "abs": -1, "neg_other": -3}.get(style, 20)
     sc = {"abs": 1.0}.get(style, 0.01)
